@@ -126,7 +126,19 @@ pub fn draw_plan(prop: &str, index: u64, r: &mut Rng, thorough: bool) -> RunPlan
         "C04" => base_cfg(prop, WorldKind::Map, C_TREE, O_OGET, r),
         "C05" => base_cfg(prop, WorldKind::Set, C_TREE, O_OGET, r),
         "C06" => base_cfg(prop, WorldKind::Key, C_TREE, O_KGET, r),
-        "C07" => base_cfg(prop, WorldKind::Key, C_TREE | C_LIST, O_KEXPORT, r),
+        "C07" => {
+            let mut c = base_cfg(prop, WorldKind::Key, C_TREE | C_LIST, O_KEXPORT, r);
+            // a few exports of very large (deep) trees: out of reach of short histories
+            if index % (if thorough { 40_000 } else { 10_000 }) == 13 {
+                let n = *r.pick(&[100_000usize, 200_000, 262_145, 300_000]);
+                c.universe = (2 * n as i32 + 8).max(16);
+                c.key_lo = 0;
+                c.colls = C_TREE;
+                bulk = Some((n, r.below(3) as u8, r.chance(1, 3)));
+                len = n + 2;
+            }
+            c
+        }
         "C08" => base_cfg(prop, if index % 2 == 0 { WorldKind::Map } else { WorldKind::Set }, C_TREE, O_OFIRST | O_OHANDLE, r),
         "C09" => base_cfg(prop, WorldKind::Set, C_TREE, O_ONEIGH, r),
         "C10" => {
